@@ -78,6 +78,13 @@ def build_problem(case):
     if case['kind'] == 'single':
         P, feats = wl.single_assembly(
             rng, coolant_pool=True, max_rings=(12 if case.get('big') else 8))
+        if rng.random() < 0.15:
+            # written in inches, core height and region bounds at half-inch
+            # values
+            Q = wl.in_inches(P)
+            if Q is not None:
+                P = Q
+                feats['inches'] = True
     elif case['kind'] == 'refine':
         P, feats = wl.single_assembly(rng, tdep=True, gap='none', lf=False,
                                       regions=False, max_rings=5,
